@@ -80,6 +80,17 @@ def lock_model(c):
     ])
 
 
+def lock_inductive(c):
+    """MwLockInductive.tla with Apalache: the lock discipline as an INDUCTIVE invariant - four threads, any number of calls each, any
+    history (threads return to idle and call again, which the bounded TLC configurations do not explore); the deferred-RUnlock twin
+    must make it non-inductive."""
+    base = ["--cinit=ConstInit", "--inv=IndInv"]
+    c.apalache("MwLockInductive", base + ["--init=Init", "--length=0"], tag="MwLockInductive_init")
+    c.apalache("MwLockInductive", base + ["--init=IndInit", "--length=1"], tag="MwLockInductive_step")
+    c.apalache("MwLockInductive", ["--cinit=ConstInit", "--inv=Outside", "--init=IndInit", "--length=0"], tag="MwLockInductive_outside")
+    c.apalache("MwLockInductive", base + ["--init=IndInit", "--next=NextHold", "--length=1"], expect_error=True, tag="MwLockInductive_twin_hold")
+
+
 def segment(evs, idx):
     j = idx - 1
     while j > 0 and evs[j]["ev"] != "Reset":
